@@ -90,7 +90,13 @@ def build_evse(spec, sid="EV-se"):
         rates = pd.Series(rates, index=["lvl-%d" % i for i in range(len(rates))])
     elif how == "set":
         rates = set(rates)
-    return FiniteRatesEVSE(sid, rates)
+    evse = FiniteRatesEVSE(sid, rates)
+    if how == "list" and spec.get("edit_list_afterwards"):
+        # the caller goes on using its own list (e.g. to describe a bigger station): the station
+        # that was built from it keeps the levels it was built with
+        rates.append(max(rates) + 8.0)
+        rates.append(3.21)
+    return evse
 
 
 def twin_of(es):
@@ -305,6 +311,10 @@ def prop(spec, rec):
     labels.add(es["kind"])
     if es.get("container") in ("generator", "map"):
         labels.add("rates_from_one_shot_iterable")
+    if es["kind"] == "finite" and len(es["rates"]) >= 64:
+        labels.add("at_least_64_levels")
+    if es["kind"] == "finite" and es.get("container", "list") == "list" and es.get("edit_list_afterwards"):
+        labels.add("callers_list_edited_afterwards")
     labels.add("with_ev" if ev is not None else "no_ev")
     labels.add("via_network" if spec["via_network"] else "direct")
     rec.count("pilots", len(spec["pilots"]))
@@ -334,8 +344,13 @@ def evse_specs(draw):
         end = draw(st.one_of(st.just(6.0), RATE))
         hi = draw(st.one_of(st.none(), st.just(end), RATE.map(lambda x: end + x)))
         return {"kind": "deadband", "end": end, "max": hi}
-    shape = draw(st.sampled_from(["av", "cc", "random", "random", "single", "nozero", "dups"]))
-    if shape == "av":
+    shape = draw(st.sampled_from(["av", "cc", "random", "random", "single", "nozero", "dups", "fine"]))
+    if shape == "fine":
+        # a finely graded station: 6 A to 16..40 A in 0.25 A or 0.1 A steps (65 - 340 levels)
+        step = draw(st.sampled_from([0.25, 0.1]))
+        top = draw(st.sampled_from([22.0, 32.0, 40.0]))
+        rates = [0.0] + [round(6.0 + k * step, 6) for k in range(int(round((top - 6.0) / step)) + 1)]
+    elif shape == "av":
         rates = [0.0] + [float(i) for i in range(6, 33)]
     elif shape == "cc":
         rates = [0.0, 8.0, 16.0, 24.0, 32.0]
@@ -347,8 +362,11 @@ def evse_specs(draw):
             rates.append(0.0)
         if shape == "dups":
             rates = rates + rates[: draw(st.integers(1, len(rates)))]
-    rates = list(draw(st.permutations(rates)))
-    return {"kind": "finite", "rates": rates, "container": draw(st.sampled_from(["list", "list", "tuple", "array", "generator", "map", "series", "set"]))}
+    if draw(st.booleans()):
+        rates = list(draw(st.permutations(rates)))
+    else:
+        rates = sorted(set(rates)) if draw(st.booleans()) else rates  # already in canonical form
+    return {"kind": "finite", "rates": rates, "edit_list_afterwards": draw(st.booleans()), "container": draw(st.sampled_from(["list", "list", "tuple", "array", "generator", "map", "series", "set"]))}
 
 
 DELTAS = [0.0, 5e-4, -5e-4, 1e-3 - 1e-6, -(1e-3 - 1e-6), 1e-3 + 1e-6, -(1e-3 + 1e-6), 2e-3, -2e-3]
@@ -360,7 +378,8 @@ def cases(draw):
     bnds = boundaries(es)
     if len(bnds) > 6:  # AV-like list: complete grid on a generated subset of the levels
         idx = draw(st.lists(st.integers(0, len(bnds) - 1), min_size=4, max_size=6, unique=True))
-        gb = [bnds[i] for i in sorted(idx)]
+        # both ends of the span are always probed (values just outside it must be refused)
+        gb = [bnds[i] for i in sorted(set(idx) | {0, len(bnds) - 1})]
     else:
         gb = bnds
     grid = [b + d for b in gb for d in DELTAS]
@@ -397,7 +416,7 @@ def subchecks(tier):
             prop,
             quick=1500,
             thorough=150000,
-            floors={"near_boundary": 0.454, "rejected": 0.5, "with_ev": 0.149, "finite": 0.15, "deadband": 0.071, "cont": 0.15, "infinite_maximum_fed_back": 0.042, "nan_pilot": 0.1, "rates_from_one_shot_iterable": 0.033},
+            floors={"near_boundary": 0.454, "rejected": 0.5, "with_ev": 0.149, "finite": 0.15, "deadband": 0.071, "cont": 0.15, "infinite_maximum_fed_back": 0.042, "nan_pilot": 0.1, "at_least_64_levels": 0.02, "callers_list_edited_afterwards": 0.03, "rates_from_one_shot_iterable": 0.033},
         )
     ]
 
